@@ -61,7 +61,7 @@ pub fn generate<'ast>(
                         vec![literal(span, field.declared_name()), deserializer_ident()],
                     )
                 },
-            )
+            )?
         }
         Type::Variant(ref row) => row_iter(row)
             .fold(None, |acc, variant| {
